@@ -12,6 +12,22 @@ CHECKS = {
   "note": "Trusts: Expected(script) as the reading of the property (400/408 checked for status+close only); the harness reference HTTP response parser; loopback timing assumptions (3 s silence = hang). Open deviations CrlfAfterBody and ReadAheadLost are attributed only when Dev={d} explains the log exactly.",
   "ref": "DESIGN.md section 5 C01",
  },
+ "C11": {
+  "bins": ["wsendpoint"], "specs": ["wsendpoint"],
+  "level": "model_checking",
+  "technique": "TLA+ model of one WebSocket connection (handshake, frames in pieces, blocking/non-blocking receive, ping/pong, close, drop) checked exhaustively by TLC; every finished behaviour replayed on loopback against a real App + websocket_handler; event logs of those and of random scripts trace-validated by TLC; accept values recomputed by TLC (Sha1/Base64 specs)",
+  "text": "TLC explores all conforming client scripts up to 3 frames (thorough 4) x delivery split classes x receive modes and proves the handshake, well-formed-output, exact-delivery, ping/pong, close and nothing-yet properties plus liveness, refuting 9 deviations/mutants and 2 witnesses; every behaviour is replayed against the real endpoint by a reference RFC 6455 client that parses the server's bytes as frames, and logged connections (incl. random scripts up to 12 frames, 70 KiB payloads) are accepted only if TLC finds a matching behaviour of the spec.",
+  "note": "Trusts: the harness frame parser and loopback instrumentation (FIONREAD lower bound on arrival, TIOCOUTQ = 0 means delivered); Close reply payload not compared; client scripts conform to the RFC; abrupt disconnect = half-close; accept values for random keys beyond the TLC-checked sample come from the harness SHA-1/Base64 cross-checked against TLC.",
+  "ref": "DESIGN.md section 5 C11",
+ },
+ "C17": {
+  "bins": ["auth"], "specs": ["auth"],
+  "level": "model_checking",
+  "technique": "TLA+ model of AuthProvider (code model vs. reference model of grants/passwords) checked by TLC; TLC's complete state graph replayed edge by edge on a real AuthProvider<Vec<User>> and the with_auth_route closure; random operation histories trace-validated by TLC",
+  "text": "TLC explores every reachable state of Auth.tla (3 uids / up to 3 live, 2 passwords, 3 tokens, clock 0..4, lifetimes 0/1/2/3) with coherence, one-live-session, uniqueness invariants and the per-call action property ResultsOK, plus simulation with 5 live users; seven named deviations are each refuted. Every edge of the dumped graph is executed on the real provider (with/without pepper, all concretisations of unknown uid/token/cookie), and random histories (<=60 ops, 1..5 users) recorded from the real code are accepted only if Auth.tla's actions reproduce every result and database projection.",
+  "note": "Trusts: the reference model in Auth.tla as the reading of the property; the uid/token-to-integer abstraction and clock-by-expiry-rewrite (unit 10^6 s) in the harness; Argon2; Argon2-bound non-discovering edges are sampled; token randomness quality not decided (format + distinctness only).",
+  "ref": "DESIGN.md section 5 C17",
+ },
  "C19": {
   "bins": ["blacklist"], "specs": ["server"],
   "level": "model_checking",
